@@ -51,6 +51,7 @@ type witness struct {
 	Missing  []string `json:"missing,omitempty"`
 	Surplus  []string `json:"surplus,omitempty"`
 	TSI      string   `json:"tsi_index_files_by_level,omitempty"`
+	Settled  []string `json:"diagnosis_answer_again_after_tsi_at_rest_and_index_detail,omitempty"`
 }
 
 func body() {
@@ -98,6 +99,14 @@ func body() {
 		}
 		todo = append(todo, j)
 	}
+	if v := os.Getenv("C14_REPEAT"); v != "" { // diagnosis of schedule-dependent findings: run the selected cases k times
+		k := 1
+		fmt.Sscan(v, &k)
+		base := todo
+		for i := 1; i < k; i++ {
+			todo = append(todo, base...)
+		}
+	}
 	workers := runtime.NumCPU()
 	if workers > 16 {
 		workers = 16
@@ -125,6 +134,7 @@ type History struct {
 	churnSinceDrop bool // index / series-file compaction or reopen since the last drop
 	reopened       bool // the stores were reopened at least once
 	dead           bool // stores must not be used any more (hung operation)
+	settled        []string
 	stop           bool // an unlisted violation was reported: the twins may have diverged from the model
 }
 
@@ -190,12 +200,13 @@ func oneHistory(caseID string, seed int64, idx int, dir string) {
 // fail reports a violation; it returns true when the history may go on (known finding).
 func (h *History) fail(sig string, e *Env, q string, scope []uint64, want, got, missing, surplus []string, what string) bool {
 	w := witness{Seed: h.seed, Index: e.Index, Settings: h.settings(), Ops: append([]string(nil), h.ops...), Question: q, Scope: scope,
-		Want: showAll(want), Got: showAll(got), Missing: showAll(missing), Surplus: showAll(surplus), TSI: fmt.Sprint(e.TSILevels())}
+		Want: showAll(want), Got: showAll(got), Missing: showAll(missing), Surplus: showAll(surplus), TSI: fmt.Sprint(e.TSILevels()), Settled: h.settled}
+	h.settled = nil
 	known := r.Violation(sig, h.caseID, what, w)
-	if !known {
+	if !known && os.Getenv("C14_KEEPGOING") == "" {
 		h.stop = true
 	}
-	return known
+	return known || os.Getenv("C14_KEEPGOING") != ""
 }
 
 // apply runs one operation on both stores and on the model.
@@ -732,6 +743,17 @@ func (h *History) askAll() bool {
 						if c != "" {
 							sig = "C14/lingering/" + e.Index + "/" + c
 							r.Count("surplus_answers_of_class_"+c, 1)
+						}
+						if c == "" && e.Index == "tsi1" {
+							// diagnosis only: is the answer still wrong once the index is at rest?
+							e.WaitTSI()
+							if again, err := q.Ask(e); err == nil {
+								h.settled = append([]string{fmt.Sprintf("%d entries:", len(again))}, showAll(again)...)
+							}
+							h.settled = append(h.settled, e.lastNames...)
+							for _, s := range sp {
+								h.settled = append(h.settled, e.MeasurementDetail(q.Scope, strings.SplitN(s, "\x00", 2)[0])...)
+							}
 						}
 						if !h.fail(sig, e, q.Desc, q.Scope, q.Want, got, missing, sp,
 							fmt.Sprintf("%s store: %s on shards %v returns %q which no live series justifies (want %q, got %q)", e.Index, q.Desc, q.Scope, showAll(sp), showAll(q.Want), showAll(got))) {
